@@ -346,4 +346,26 @@ structure TGeomOk (g : TGeom) : Prop where
 /-- the tree a reader sees -/
 def tabs (g : TGeom) (s : DirSt) : Spec.Tree := kidsAbs s.d g.f.io s.kids
 
+/-! ### second invariant: no directory is larger than its chain -/
+
+/-- a directory with children `ks` fits its storage: the fixed root region has a slot for every
+    entry; a chained directory has exactly the clusters its entries need (what
+    `writeDirectoryEntries` leaves behind), so no entry lies beyond the end of the chain -/
+def LevelFit (g : TGeom) (base : Nat) (chain : List Nat) (ks : List TNode) : Prop :=
+  (chain = [] → dirSlots g base ks ≤ g.rootCap) ∧ (chain ≠ [] → chain.length = dirNeed g base ks)
+
+mutual
+def TNode.Fit (g : TGeom) : TNode → Prop
+  | .file _ _ _ => True
+  | .dir _ c ks => c ≠ [] ∧ LevelFit g 2 c ks ∧ kidsFit g ks
+def kidsFit (g : TGeom) : List TNode → Prop
+  | [] => True
+  | t :: ks => t.Fit g ∧ kidsFit g ks
+end
+
+/-- every directory of the volume, the root included, fits its storage -/
+structure TFit (g : TGeom) (s : DirSt) : Prop where
+  root : LevelFit g g.rootBase s.chain s.kids
+  kids : kidsFit g s.kids
+
 end Diskfs.Fat
